@@ -254,8 +254,35 @@ def answerEval (kind : String) (sliced : Bool) (n : String) (e : Sexp) (arrs : L
       ++ " ;; " ++ " ".intercalate otags
   | _, _, _ => "bad-request"
 
+/-- `(fc <T> <operand|-> (whens (c r)*) <else|->)`: a searched (`-`) or simple CASE as written in the SQL
+text, WHEN branches in source order; an untyped `null` result and a missing ELSE are NULLs of the
+result type `T` (the binder's implicit cast). Answer: `answerFold` of the desugaring `caseOf`, plus
+`first:<v>` = the scalar SQL value read off the text: the result of the FIRST branch whose condition
+evaluates to TRUE (conditions and results evaluated one by one, not through the nested `if`s). -/
+def answerCase (ty : String) (op : Sexp) (ws : List Sexp) (el : Sexp) : String :=
+  let typedNull : Sexp := .list [.atom "cast", .atom ty, .atom "null"]
+  let res (r : Sexp) : Sexp := match r with | .atom "null" => typedNull | .atom "-" => typedNull | r => r
+  let cond (c : Sexp) : Sexp := match op with | .atom "-" => c | o => .list [.atom "=", o, c]
+  let branches : Option (List (KExpr × KExpr)) := ws.mapM fun w => match w with
+    | .list [c, r] => do pure (← parseExpr (cond c), ← parseExpr (res r))
+    | _ => none
+  match branches, parseExpr (res el) with
+  | some bs, some e =>
+    let val (x : KExpr) : Option KVal := match (evalK [] 1 x).1 with | .ok c => some c.get0 | _ => none
+    -- first TRUE branch wins, computed branch by branch
+    let rec first : List (KExpr × KExpr) → Option KVal
+      | [] => val e
+      | (c, r) :: rest => match val c with
+        | some (.bool true) => val r
+        | some _ => first rest
+        | none => none
+    let ftag := match first bs with | some v => " first:" ++ showKVal v | none => ""
+    answerFold (caseOf bs e) ++ ftag
+  | _, _ => "bad-request"
+
 def answer (line : String) : String :=
   match Sexp.parse line with
+  | some (.list [.atom "fc", .atom ty, op, .list (.atom "whens" :: ws), el]) => answerCase ty op ws el
   | some (.list [.atom "f", e]) =>
     match parseExpr e with
     | some e => answerFold e
